@@ -87,7 +87,7 @@ type c10Rule struct {
 }
 
 func TestVfC10Rules(t *testing.T) {
-	st := vfkit.Stats("TestVfC10Rules", "generated configurations (1-3 upstreams, 0-3 domain sets with shared files incl. empty sets, 0-6 rules with optional domain / reverse / reject 0-15 / forward / no action) each run by the real binary, x 25 queries (names in/out of the sets, mixed case, several types and classes); oracle: reference first-match model -> client rcode and answering upstream tag, the selected upstream and no other receives exactly one lower-cased RD=1 query, reject/REFUSED decisions cause no upstream traffic; non-trivial = deciding rule is not the first, or reverse decides, or a reject precedes a forward that would also match")
+	st := vfkit.Stats("TestVfC10Rules", "generated configurations (1-3 upstreams of which some answer SERVFAIL / REFUSED, 0-3 domain sets with shared files incl. empty sets, 0-6 rules with optional domain / reverse / reject 0-15 / forward / no action) each run by the real binary, x 25 queries (names in/out of the sets, mixed case, several types and classes); oracle: reference first-match model -> client rcode (a failing upstream's own rcode) and answering upstream tag, the selected upstream and no other receives exactly one lower-cased RD=1 query, reject/REFUSED decisions cause no upstream traffic; non-trivial = deciding rule is not the first, or reverse decides, or a reject precedes a forward that would also match")
 	defer vfkit.Flush()
 	rapid.Check(t, func(t *rapid.T) {
 		block := NextIPBlock()
@@ -95,8 +95,19 @@ func TestVfC10Rules(t *testing.T) {
 		pip := block + "1"
 		nUp := rapid.IntRange(1, 3).Draw(t, "nUpstreams")
 		var ups []*FakeUpstream
+		// an upstream may be a failing one: its error answer is the answer (the first matching rule decides, a later rule
+		// is no fall-back for a failing upstream)
+		upMode := make([]string, nUp)
 		for i := 0; i < nUp; i++ {
+			mode := rapid.SampledFrom([]string{"ok", "ok", "ok", "servfail", "refused"}).Draw(t, "upstreamMode")
+			upMode[i] = mode
 			u, err := StartUpstream("udp", fmt.Sprintf("up-%d", i), block+"2", 0, nil, func(q *UpQuery) UpAction {
+				switch mode {
+				case "servfail":
+					return UpAction{Reply: EncodeMsg(KeyedAnswer(q.Msg, q.Up.Tag, uint32(q.Seq), 60, 2))}
+				case "refused":
+					return UpAction{Reply: EncodeMsg(KeyedAnswer(q.Msg, q.Up.Tag, uint32(q.Seq), 60, 5))}
+				}
 				return UpAction{Reply: EncodeMsg(KeyedAnswer(q.Msg, q.Up.Tag, uint32(q.Seq), 60, 0))}
 			})
 			if err != nil {
@@ -297,8 +308,21 @@ func TestVfC10Rules(t *testing.T) {
 				}
 			default:
 				_, tag, _, ok := ParseKeyed(r)
-				if r.Rcode() != 0 || !ok || tag != decision {
-					t.Fatalf("rcode %d answered by %q, expected upstream %s; %s", r.Rcode(), tag, decision, desc)
+				mode := "ok"
+				for i, u := range ups {
+					if u.Tag == decision {
+						mode = upMode[i]
+					}
+				}
+				switch mode {
+				case "ok":
+					if r.Rcode() != 0 || !ok || tag != decision {
+						t.Fatalf("rcode %d answered by %q, expected upstream %s; %s", r.Rcode(), tag, decision, desc)
+					}
+				default:
+					if want := map[string]int{"servfail": 2, "refused": 5}[mode]; r.Rcode() != want || (ok && tag != decision) {
+						t.Fatalf("rcode %d (answer tagged %q), expected the selected upstream %s's own rcode %d; %s", r.Rcode(), tag, decision, want, desc)
+					}
 				}
 				for i, u := range ups {
 					wantN := 0
